@@ -20,6 +20,7 @@ SHAPES = {
 
 def gen_network(rng, n_motifs, loopy):
     motifs = []          # {"verts": [...], "edges": [(a,b)...], "id": k}
+    base = rng.choice([0, 0, 1000])      # motif identifiers need not be small numbers
     nv = 0
     member = {}          # vertex -> set of motif ids
     for k in range(n_motifs):
@@ -43,7 +44,7 @@ def gen_network(rng, n_motifs, loopy):
         rng.shuffle(verts)
         # attached vertices must not be adjacent in the new motif if they are... (they share no motif, so no duplicate edge)
         edges = [(verts[a], verts[b]) for a, b in pat]
-        mid = k * 3 + rng.randint(0, 2)
+        mid = base + k * 3 + rng.randint(0, 2)
         motifs.append({"verts": verts, "edges": edges, "id": mid})
         for v in verts:
             member.setdefault(v, set()).add(mid)
